@@ -3,7 +3,7 @@ CONSTANTS
   IntParts = {0, 1, 12, 254}
   Fracs <- FracsQ
   Exps <- ExpsQ
-  Refs = {50, 816}
+  Refs = {0, 50, 816}
 INVARIANT RoundTripExact
 INVARIANT InchesTimes96
 INVARIANT TablesOK
